@@ -4,6 +4,7 @@ import (
 	"bytes"
 	"encoding/json"
 	"fmt"
+	"runtime/debug"
 
 	"simlal/sim"
 	"simlal/sim/media"
@@ -382,6 +383,15 @@ func init() {
 		Run: func(k *sim.Kernel, plan json.RawMessage) {
 			var pl RtpPlan
 			fromJSON(plan, &pl)
+			k.Mix(string(plan))
+			defer func() {
+				if r := recover(); r != nil {
+					if sim.IsAbort(r) {
+						panic(r)
+					}
+					k.Violate("C12.panic", "lal's codec panicked on this input: %v\n%s", r, debug.Stack())
+				}
+			}()
 			execRtp(k, pl)
 		},
 		Shrink: func(plan json.RawMessage) []json.RawMessage {
